@@ -1,29 +1,87 @@
-TECHNIQUE = "bounded model checking of the real Rust code with Kani/CBMC (SAT, CaDiCaL) against in-harness reference models; unwinding assertions on; native replay of counterexamples"
+TECHNIQUE = ("bounded model checking of the real Rust code with Kani/CBMC (SAT back end CaDiCaL) against in-harness reference "
+             "models; unwinding assertions on; every counterexample replayed natively before it is reported")
 
 HOOKS = {
     "guard": "kani",
-    "enable": "no hook is committed to /repo: every check copies /repo's working tree to a scratch directory, appends `#[cfg(kani)] #[path=\"/verif/harness/<m>.rs\"] mod verif_kani;` to the anchored source files there and patches model crates in the scratch Cargo.toml; cfg(kani) is set only by kani-compiler",
+    "enable": ("no hook is committed to /repo: every check copies /repo's working tree to a scratch directory, appends "
+               "`#[cfg(kani)] #[path=\"<scratch>/verif_harness/<m>.rs\"] pub(crate) mod verif_kani;` to the anchored source files there "
+               "and patches model crates into the scratch Cargo.toml; cfg(kani) is set only by kani-compiler"),
     "baseline_off_cmd": "cd /repo && cargo test --workspace --no-fail-fast --offline",
     "source_commits": [],
     "add_only": True,
 }
 
 NOTES = ("All claims are bounded: 'holds for every value of the symbolic inputs inside the per-harness bound listed in the "
-         "evidence; nothing is said outside it'. exit 2 = inconclusive (timeout/OOM/unwinding assertion/vacuity), never success.")
+         "evidence; nothing is said outside it'. exit 2 = inconclusive (timeout / memory cap / unwinding assertion / vacuity / "
+         "non-reproducing counterexample), never success. Most of lopdf is OUT of reach of this technique on this machine "
+         "(measured, DESIGN.md section 5): the claims below are about small kernels only and say so.")
 
-PENDING = "check not built yet in this session (see DESIGN.md section 4 for the planned harnesses); not claimed until it runs"
+COMMON_NOTE = ("Trusted base: Kani 0.68 / CBMC 6.11 translation of the compiled code; model crates indexmap (association list), "
+               "flate2/weezl (tagged transparent codecs), log (no-op macros); std stubs listed per harness in the evidence. "
+               "lopdf's nom-based parser is never part of a query: 'reads back' means 'is read back by an ISO 32000 reference "
+               "reader written in the harness'. ")
 
 CLAIMS = {
+    "C01": {
+        "text": "Writer half only, token kernels: for ALL names of 1-2 bytes, ALL literal strings of 1-2 bytes, ALL 2-byte hex strings and ALL i16 integers the bytes lopdf writes are decoded by an ISO 32000-1 (7.3.3-7.3.5) reference reader to exactly the original value; free/compressed xref-table entries are 20-byte 'f' entries; the [1 4 2] cross-reference-stream row packing is inverted by the reader's own big-endian field decoder for ALL (u8,u32,u16).",
+        "design_ref": "DESIGN.md section 4 C01",
+        "note": COMMON_NOTE + "NOT decided: Document::save_to/load_mem as a whole, nesting, separators between array/dictionary elements, reals, strings/names longer than 2 bytes, the reader (parser) side, both feature configurations. A regression there is not detected.",
+    },
+    "C03": {
+        "text": "Kernels of the strict-validity claim: the C01 token kernels (a strict reader's lexical level), 20-byte free entries, [1 4 2] row packing, and CountingWrite's byte accounting (what every xref offset is computed from) under every chunking / short-write / failing sink within the bound.",
+        "design_ref": "DESIGN.md section 4 C03",
+        "note": COMMON_NOTE + "NOT decided: whole-file structure (header, startxref, subsection splitting in write_xref, Index/W/Length consistency in create_xref_steam, incremental save) - the harnesses for these did not reach a verdict inside the caps and are not part of the claim.",
+    },
+    "C04": {
+        "text": "No-panic (overflow checks on) for the decoders that could be encoded: PNG decode_row for all rows <= 4 bytes x bpp 1..3, ASCII85 on all bodies of 1-2 bytes + '~>', decompress_predictor for ANY i64 Columns/Colors/BitsPerComponent, and the absence of lone-surrogate cells in all five one-byte tables (bytes_to_string's expect).",
+        "design_ref": "DESIGN.md section 4 C04",
+        "note": COMMON_NOTE + "NOT decided: every entry point that goes through the nom parser (load_mem, Content::decode, CMap parsing, ObjectStream::new), decode_xref_stream, decode_text_string, allocation-size and termination bounds. The property is therefore decided for a small fraction of its entry points only.",
+    },
+    "C05": {
+        "text": "Primitive-level round trips: PKCS#5 pad/unpad for ALL 16-byte blocks and pad positions (and rejection of every malformed padding), RC4 encrypt/decrypt inverse and published keystream for key 'Key' on ALL 8-byte plaintexts, identity crypt filter.",
+        "design_ref": "DESIGN.md section 4 C05",
+        "note": COMMON_NOTE + "NOT decided: Document::encrypt/decrypt, encrypt_object/decrypt_object (object walking, Crypt overrides, Metadata/XRef exemptions), AES filters, password authentication, save/reload. The claim covers the RC4/PKCS#5/identity primitives only.",
+    },
+    "C06": {
+        "text": "Agreement with the standard for the pieces that could be encoded: Permissions::p_value vs ISO 32000-1 Table 22 for ALL 2^64 bit patterns, RC4 vs the published test vector on ALL 8-byte plaintexts, PKCS#5 padding as RFC 2898 defines it for ALL blocks.",
+        "design_ref": "DESIGN.md section 4 C06",
+        "note": COMMON_NOTE + "NOT decided: Algorithms 1-13 message layouts (the recording-MD5 harnesses did not reach a verdict), key derivation, R5/R6, interoperability on whole files. Agreement of the key-derivation code with ISO 32000 is NOT established by this check.",
+    },
     "C09": {
-        "text": "Bounded model checking of png::paeth_predict / decode_row / decode_frame, Stream::decode_ascii85, decompress_predictor parameter plumbing and Length bookkeeping against references written from the PNG and ISO 32000 text, for all inputs inside small stated byte bounds.",
+        "text": "PNG predictors vs the PNG text (Paeth for all 2^24 triples, every filter type on all rows <= 4 bytes x bpp 1..3), ASCII85 vs an ISO 7.4.3 reference on all bodies of 1-2 bytes + '~>' (3 bytes in the thorough tier), DecodeParms -> (bytes-per-pixel, columns) plumbing for Predictor 0..20 / Columns <= 10^6 / Colors <= 32 / Bits 8|16 with each key present or null, Length bookkeeping of Stream::new/set_content, and compress(): never longer, Length consistent, Filter set iff replaced, already-filtered streams untouched (encoder stub with arbitrary output length).",
         "design_ref": "DESIGN.md section 4 C09",
-        "note": "Flate and LZW bit-level decoding are third-party (flate2, weezl) and replaced by nondeterministic stubs; Bits < 8 and rows longer than the stated bounds are outside the claim.",
+        "note": COMMON_NOTE + "Flate and LZW bit-level decoding are third-party and replaced by stubs. NOT decided: filter chains and DecodeParms given as an array (harnesses did not reach a verdict; by reading, the array form is ignored by decompressed_content - recorded in DESIGN.md section 6 as undecided), set_plain_content/decompress bookkeeping, multi-row decode_frame, Bits < 8.",
+    },
+    "C14": {
+        "text": "Encode half, operand kernels only: the writer functions Content::encode uses for operands (write_name, write_string literal/hex, integers) produce tokens an ISO reference reader decodes to the original operand, for all 1-2 byte names/strings and all i16.",
+        "design_ref": "DESIGN.md section 4 C14",
+        "note": COMMON_NOTE + "NOT decided: Content::encode's own separator logic (its harness did not reach a verdict), Content::decode (nom), inline images. Shares its harnesses with C01.",
+    },
+    "C16": {
+        "text": "Codec tables and UTF-16BE encoder: encode_utf16_be for EVERY Unicode scalar value (BOM, big-endian units, surrogate pairs); all five one-byte tables free of surrogate cells; printable-ASCII and Latin-1 portions of WinAnsi / MacRoman / PDFDoc / Standard agree with the Annex D rules for all 256 bytes.",
+        "design_ref": "DESIGN.md section 4 C16",
+        "note": COMMON_NOTE + "NOT decided: text_string/decode_text_string round trip (harnesses did not reach a verdict; by reading, ASCII control characters are dropped by the PDFDocEncoding table rows 0x00-0x17 - recorded as undecided in DESIGN.md section 6), re-encoding stability, text extraction.",
+    },
+    "C19": {
+        "text": "CountingWrite (the byte accounting every cross-reference offset is computed from) under an adversarial sink: for every budget 0..9, chunk size 1..3, failure kind (hard error, zero-length write) and one transient Interrupted at any offset, either all bytes arrive unchanged and bytes_written equals the bytes accepted, or an error is reported - never silent success.",
+        "design_ref": "DESIGN.md section 4 C19",
+        "note": COMMON_NOTE + "NOT decided: Document::save_to / IncrementalDocument::save_to as a whole under a failing sink (they need a Document value, out of reach), BufWriter/file path.",
     },
 }
 
+NA_PARSER = "the deciding code is lopdf's nom parser or is reachable only through it; 4 symbolic input bytes through parser::name already exceed 14 GB / 15 min (measured), so no query about it reaches a verdict"
+NA_DOC = ("every harness needs a Document value (std BTreeMap<ObjectId, Object> + recursive Object); even fully concrete 3-object "
+          "documents did not finish symbolic execution in 420-600 s (measured: c12_get_pages_numbering, c13_dereference_chain, c12_page_iter_wiring), so nothing about it can be decided here")
+
 NOT_APPLICABLE = {
-    "C08": "Kani/CBMC has no model of threads or rayon; the schedule-dependent merge is a closure inside Reader::read reachable only through the nom parser (measured out of reach), so there is no kernel this family can decide",
+    "C02": NA_PARSER + "; the parser-free kernels tried (decode_xref_stream vs an ISO 7.5.8 reference, Xref::merge, search_substring) exceeded 10-12 GB or 420 s",
+    "C07": "reader-side 'latest revision wins' lives in Reader::read behind the nom parser; Xref::merge (std BTreeMap) and IncrementalDocument::save_to (needs Document values) did not reach a verdict inside the caps",
+    "C08": "Kani/CBMC has no model of threads or rayon; the schedule-dependent merge is a closure inside Reader::read reachable only through the nom parser",
+    "C10": NA_DOC,
+    "C11": NA_DOC,
+    "C12": NA_DOC,
+    "C13": NA_DOC,
+    "C15": "ToUnicodeCMap sits on rangemap (std BTreeMap) and nested Vec<Vec<u16>> targets; harnesses over a contract-level rangemap model were built (harness/cmap.rs) but did not reach a verdict inside the caps; the CMap grammar itself is nom",
+    "C17": NA_DOC + "; build_outline additionally uses HashMap (SipHash)",
     "C18": "the conversions run entirely inside chrono/jiff/time strftime/strptime engines and core::fmt, far beyond bounded symbolic execution here; lopdf owns two trivial string helpers only",
 }
-for p in ["C01","C02","C03","C04","C05","C06","C07","C10","C11","C12","C13","C14","C15","C16","C17","C19"]:
-    NOT_APPLICABLE.setdefault(p, PENDING)
